@@ -218,3 +218,4 @@ def corpus_run(run, tier, want):
 import props_mem  # noqa: E402  (registers C27)
 import props_coh  # noqa: E402  (registers C19, C20)
 import props_panic  # noqa: E402  (registers C12)
+import props_terms  # noqa: E402  (registers C18, C25, C26)
